@@ -192,7 +192,15 @@ def h_src(ctx, scenario, code):
     limit = ctx.int("limit", 1, 3)
     sc = hsrc.SrcScenario(ctx, w, mode=mode, closure=True, M=2,
                           rig_kwargs={"fault_table": {cond: CODES[code]}, "ack_limit": limit})
-    sc.put()
+    # the put request may carry a fault-handler override for the very condition (forwarded to the peer
+    # in the Metadata PDU): the local outcome is still decided by the local entity's table
+    ov = ctx.pick("override", [None, "ignore", "cancel", "abandon"])
+    if ov is not None:
+        from spacepackets.cfdp import FaultHandlerOverrideTlv
+        ctx.covered("override_in_request")
+        sc.put(overrides=[FaultHandlerOverrideTlv(cond, CODES[ov])])
+    else:
+        sc.put()
     o = sc.sm()
     sc.remember_conf()
     tid = sc.rig.h.transaction_id
@@ -323,12 +331,12 @@ def plan(tier):
     for sc in ("ack_limit", "check_limit"):
         for code in CODES:
             specs.append(Spec(f"src/{sc}/{code}", "vf.harness.c14:h_src", {"scenario": sc, "code": code},
-                              twin_share=0.3))
+                              twin_share=0.3, obligations=["override_in_request"]))
     return specs
 
 
 BOUNDS = {
-    "quick": "8 receiver scenarios (file size error after and at EOF, checksum failure unacknowledged/acknowledged, filestore rejection at file creation (Metadata first, and Metadata arriving late after the EOF), check limit, NAK limit, positive ACK limit of the Finished PDU) and 2 sender scenarios (positive ACK limit of the EOF, check limit with closure) x handler code {ignore, cancel, abandon}; plus open receiver runs: one table entry overridden (6 conditions x 3 codes), limits 1, canonical prefix (none / delivered / EOF with missing data) followed by every sequence of N=3 (no prefix) / N=2 events incl. possibly corrupted File Data; file size, limits in [1,3], clock, mode/closure (where free) symbolic; set_handler over all condition x handler code pairs",
+    "quick": "8 receiver scenarios (file size error after and at EOF, checksum failure unacknowledged/acknowledged, filestore rejection at file creation (Metadata first, and Metadata arriving late after the EOF), check limit, NAK limit, positive ACK limit of the Finished PDU) and 2 sender scenarios (positive ACK limit of the EOF, check limit with closure; put request without and with a fault-handler override TLV for the condition) x handler code {ignore, cancel, abandon}; plus open receiver runs: one table entry overridden (6 conditions x 3 codes), limits 1, canonical prefix (none / delivered / EOF with missing data) followed by every sequence of N=3 (no prefix) / N=2 events incl. possibly corrupted File Data; file size, limits in [1,3], clock, mode/closure (where free) symbolic; set_handler over all condition x handler code pairs",
     "thorough": "same space; adds the cross-solver pass",
 }
 OUTSIDE = "suspension (unimplemented in the library); faults reached from histories other than the scripted scenarios; the cancel request, which the handlers do not route through the fault handler table; faults declared while an EOF(cancel) exchange is in progress (C04)"
